@@ -98,6 +98,11 @@ func c19Gen(x *mcx.Exec) J {
 			}
 			pi[m] = op
 		}
+		// a path item may carry a $ref next to its own operations (both are kept by the document model)
+		if len(pi) > 0 && x.Choose(mcx.INPUT, 2, fmt.Sprintf("p%d.$ref", p)) == 1 {
+			pi["$ref"] = "#/x-items/shared"
+			doc["x-items"] = J{"shared": J{"get": J{"responses": J{"200": J{"description": "from the shared item"}}}}}
+		}
 		if len(pi) > 0 || p == 0 {
 			paths[[]string{"/a", "/b/{id}"}[p]] = pi
 		}
